@@ -2,5 +2,5 @@
 From Coq Require Import NArith String List Bool Arith.
 From UPF Require Import Base.LTS Model.Teardown Proofs.TeardownBounded.
 Import ListNotations.
-Lemma inst4_terminates : level 35 (init cfg4 ev4) = [].
+Lemma inst4_terminates : level 39 (init cfg4 ev4) = [].
 Proof. vm_compute. reflexivity. Qed.
